@@ -227,4 +227,149 @@ theorem ltCore_direct_iff (hσp : ∀ k, 0 < σ k) {c c' : Conv Rat} {a b : Qty 
     obtain ⟨x, y, z, hr, hz, hx, hy⟩ := h2 hAB
     exact key x y z hr hz hx hy
 
+/-- a conversion that is known to be exact, and to keep the invariant -/
+def ExactAt (σ : UId → Rat) (c : Conv Rat) (a : Qty Rat) (t : UId) : Prop :=
+  ∀ r c', CM.exec (convert a t) c = (.ok r, c') →
+    r.unit = t ∧ r.mag.val * unitSz σ c.st t = a.mag.val * unitSz σ c.st a.unit ∧ GraphOK σ c' ∧ CFrame c c'
+
+/-- The same for ANY conversion known to be exact (`ExactAt`), e.g. one between simple units through the
+    factor planner: the comparison compares `x`, `y` with `x·z = si a`, `y·z = si b`. -/
+theorem cmpCore_exact (hσp : ∀ k, 0 < σ k) (cmp : Mag Rat → Mag Rat → Bool) {c c' : Conv Rat} {a b : Qty Rat} {r : Bool}
+    (hg : GraphOK σ c)
+    (ha : a.unit < c.st.units.length) (hb : b.unit < c.st.units.length)
+    (h : CM.exec (cmpCore cmp a b) c = (.ok (some r), c'))
+    (hex : ExactAt σ { c with st := ((c.st.unprefixedUnit a.unit).1.unprefixedUnit b.unit).1 }
+      ⟨Mag.mul (Pfx.value (c.st.unit! a.unit).pfx) a.mag, (c.st.unprefixedUnit a.unit).2⟩
+      ((c.st.unprefixedUnit a.unit).1.unprefixedUnit b.unit).2) :
+    ∃ (x y : Mag Rat) (z : Rat), r = cmp x y ∧ 0 < z ∧ x.val * z = a.mag.val * unitSz σ c.st a.unit ∧
+      y.val * z = b.mag.val * unitSz σ c.st b.unit := by
+  have hσ : ∀ k, σ k ≠ 0 := fun k => ne_of_gt (hσp k)
+  unfold cmpCore at h
+  obtain ⟨s0, c0, h0, h⟩ := exec_bind_ok h
+  rw [exec_getSt] at h0
+  simp only [Prod.mk.injEq, Except.ok.injEq] at h0
+  obtain ⟨rfl, rfl⟩ := h0
+  by_cases hdim : (c.st.dimOfUnit a.unit != c.st.dimOfUnit b.unit) = true
+  · simp only [hdim, ↓reduceIte, exec_pure, Prod.mk.injEq, Except.ok.injEq] at h
+    exact absurd h.1 (by simp)
+  · simp only [hdim, Bool.false_eq_true, ↓reduceIte] at h
+    obtain ⟨this, c1, h1, h⟩ := exec_bind_ok h
+    rw [exec_unprefixedQty] at h1
+    simp only [Prod.mk.injEq, Except.ok.injEq] at h1
+    obtain ⟨hthis, hc1⟩ := h1
+    obtain ⟨g1, f1⟩ := unprefixStep hg ha
+    rw [hc1] at g1 f1
+    obtain ⟨other, c2, h2, h⟩ := exec_bind_ok h
+    rw [exec_unprefixedQty] at h2
+    simp only [Prod.mk.injEq, Except.ok.injEq] at h2
+    obtain ⟨hother, hc2⟩ := h2
+    have hb1 : b.unit < c1.st.units.length := f1.lt hb
+    obtain ⟨g2, f2⟩ := unprefixStep g1 hb1
+    rw [hc2] at g2 f2
+    have f12 := f1.trans f2
+    -- the two unprefixed operands
+    have hAu : this.unit = (c.st.unprefixedUnit a.unit).2 := by rw [← hthis]
+    have hBu : other.unit = (c1.st.unprefixedUnit b.unit).2 := by rw [← hother]
+    have hA1 : this.unit < c1.st.units.length := by rw [hAu, ← hc1]; exact unprefixedUnit_lt _ _
+    have hA2 : this.unit < c2.st.units.length := f2.lt hA1
+    have hB2 : other.unit < c2.st.units.length := by rw [hBu, ← hc2]; exact unprefixedUnit_lt _ _
+    have hBp : (c2.st.unit! other.unit).pfx = Pfx.identity := by
+      rw [hBu, ← hc2]; exact unprefixedUnit_pfx _ _
+    have hsiA : this.mag.val * unitSz σ c2.st this.unit = a.mag.val * unitSz σ c.st a.unit := by
+      rw [f2.sz hA1, hAu, ← hc1, ← hthis]
+      simp only [val_mul, Pfx.value_val]
+      exact si_unprefixed c.st a
+    have hsiB : other.mag.val * unitSz σ c2.st other.unit = b.mag.val * unitSz σ c.st b.unit := by
+      rw [hBu, ← hc2, ← hother]
+      simp only [val_mul, Pfx.value_val]
+      rw [← f1.sz hb]
+      exact si_unprefixed c1.st b
+    have hzB := unitSz_pos hσp g2.canon hB2
+    by_cases hsame : (this.unit == other.unit) = true
+    · have hAB : this.unit = other.unit := by simpa using hsame
+      simp only [hsame, ↓reduceIte, exec_pure, Prod.mk.injEq, Except.ok.injEq, Option.some.injEq] at h
+      obtain ⟨hr, _⟩ := h
+      refine ⟨this.mag, other.mag, unitSz σ c2.st other.unit, hr.symm, hzB, ?_, hsiB⟩
+      rw [← hAB]; exact hsiA
+    · simp only [hsame, Bool.false_eq_true, ↓reduceIte] at h
+      rw [exec_tryCatch] at h
+      cases hbody : CM.exec (do
+          let cq ← convert this other.unit
+          let c' ← unprefixedQty cq
+          let o' ← unprefixedQty other
+          pure (some (cmp c'.mag o'.mag)) : CM Rat (Option Bool)) c2 with
+      | mk res c3 =>
+        rw [hbody] at h
+        cases res with
+        | error e =>
+          simp only at h
+          by_cases hnf : (e == Exc.notFound) = true
+          · simp only [hnf, ↓reduceIte, exec_pure, Prod.mk.injEq, Except.ok.injEq] at h
+            exact absurd h.1 (by simp)
+          · simp only [hnf, Bool.false_eq_true, ↓reduceIte, exec_throw] at h
+            simp at h
+        | ok val =>
+          simp only [Prod.mk.injEq, Except.ok.injEq] at h
+          obtain ⟨hval, _⟩ := h
+          subst hval
+          obtain ⟨cq, c4, h4, hbody⟩ := exec_bind_ok hbody
+          have hex' : ExactAt σ c2 this other.unit := by
+            subst hthis; subst hc1; subst hother; subst hc2; exact hex
+          obtain ⟨hcu, hexact, g4, f4⟩ := hex' cq c4 h4
+          obtain ⟨cq', c6, h6, hbody⟩ := exec_bind_ok hbody
+          rw [exec_unprefixedQty] at h6
+          simp only [Prod.mk.injEq, Except.ok.injEq] at h6
+          obtain ⟨hcq', hc6⟩ := h6
+          obtain ⟨o', c7, h7, hbody⟩ := exec_bind_ok hbody
+          rw [exec_unprefixedQty] at h7
+          simp only [Prod.mk.injEq, Except.ok.injEq] at h7
+          obtain ⟨ho', _⟩ := h7
+          rw [exec_pure] at hbody
+          simp only [Prod.mk.injEq, Except.ok.injEq, Option.some.injEq] at hbody
+          obtain ⟨hr, _⟩ := hbody
+          have hB4 : other.unit < c4.st.units.length := f4.lt hB2
+          have hp4 : (c4.st.unit! cq.unit).pfx = Pfx.identity := by rw [hcu, f4.pfx hB2]; exact hBp
+          obtain ⟨_, f6⟩ := unprefixStep g4 (by rw [hcu]; exact hB4 : cq.unit < c4.st.units.length)
+          rw [hc6] at f6
+          have hp6 : (c6.st.unit! other.unit).pfx = Pfx.identity := by rw [f6.pfx hB4, f4.pfx hB2]; exact hBp
+          have hx : cq'.mag.val = cq.mag.val := by
+            rw [← hcq']; simp only [val_mul, Pfx.value_val, hp4, Pfx.val_identity, one_mul]
+          have hy : o'.mag.val = other.mag.val := by
+            rw [← ho']; simp only [val_mul, Pfx.value_val, hp6, Pfx.val_identity, one_mul]
+          refine ⟨cq'.mag, o'.mag, unitSz σ c2.st other.unit, hr.symm, hzB, ?_, ?_⟩
+          · rw [hx, hexact]; exact hsiA
+          · rw [hy]; exact hsiB
+
+/-- `==` decides by SI value whenever the conversion it needs is exact (`ExactAt`). -/
+theorem eqCore_exact_iff (hσp : ∀ k, 0 < σ k) {c c' : Conv Rat} {a b : Qty Rat} {r : Bool}
+    (hg : GraphOK σ c) (ha : a.unit < c.st.units.length) (hb : b.unit < c.st.units.length)
+    (h : CM.exec (Qty.eqCore a b) c = (.ok (some r), c'))
+    (hex : ExactAt σ { c with st := ((c.st.unprefixedUnit a.unit).1.unprefixedUnit b.unit).1 }
+      ⟨Mag.mul (Pfx.value (c.st.unit! a.unit).pfx) a.mag, (c.st.unprefixedUnit a.unit).2⟩
+      ((c.st.unprefixedUnit a.unit).1.unprefixedUnit b.unit).2) :
+    (r = true ↔ C06.si σ c.st a = C06.si σ c.st b) := by
+  rw [eqCore_eq_cmpCore] at h
+  obtain ⟨x, y, z, hr, hz, hx, hy⟩ := cmpCore_exact hσp Mag.beq hg ha hb h hex
+  unfold C06.si
+  rw [hr, C06.beq_iff, ← hx, ← hy]
+  constructor
+  · intro h; rw [h]
+  · intro h; exact mul_right_cancel₀ (ne_of_gt hz) h
+
+/-- `<` decides by SI value whenever the conversion it needs is exact. -/
+theorem ltCore_exact_iff (hσp : ∀ k, 0 < σ k) {c c' : Conv Rat} {a b : Qty Rat} {r : Bool}
+    (hg : GraphOK σ c) (ha : a.unit < c.st.units.length) (hb : b.unit < c.st.units.length)
+    (h : CM.exec (Qty.ltCore a b) c = (.ok (some r), c'))
+    (hex : ExactAt σ { c with st := ((c.st.unprefixedUnit a.unit).1.unprefixedUnit b.unit).1 }
+      ⟨Mag.mul (Pfx.value (c.st.unit! a.unit).pfx) a.mag, (c.st.unprefixedUnit a.unit).2⟩
+      ((c.st.unprefixedUnit a.unit).1.unprefixedUnit b.unit).2) :
+    (r = true ↔ C06.si σ c.st a < C06.si σ c.st b) := by
+  rw [ltCore_eq_cmpCore] at h
+  obtain ⟨x, y, z, hr, hz, hx, hy⟩ := cmpCore_exact hσp Mag.lt hg ha hb h hex
+  unfold C06.si
+  rw [hr, C06.lt_iff, ← hx, ← hy]
+  constructor
+  · intro h; exact mul_lt_mul_of_pos_right h hz
+  · intro h; exact lt_of_mul_lt_mul_right h hz.le
+
 end Measured
